@@ -138,17 +138,17 @@ Proof. vm_compute. repeat split; reflexivity. Qed.
      docgen                  tables and documentation maps              -> Ty/TypesTable.v doc_names
    A new entry (say `range c.index` in the compiler) makes this lemma fail. *)
 Definition expected_map_ranges : list (string * string * rclass) := [
-  ("conf.Config.Check", "c.ConstExprFns", RMap);
-  ("conf.Config.Check", "c.Operators", RMap);
-  ("conf.CreateTypesTable", "v.MapKeys()", RMapKeys);
-  ("conf.FieldsFromStruct", "FieldsFromStruct(f.Type)", RMap);
-  ("conf.FieldsFromStruct", "types", RMap);
-  ("docgen.Context.Markdown", "c.Types", RMap);
-  ("docgen.Context.Markdown", "c.Variables", RMap);
-  ("docgen.Context.use", "conf.FieldsFromStruct(t)", RMap);
+  ("conf.Config.Check", "_.ConstExprFns", RMap);
+  ("conf.Config.Check", "_.Operators", RMap);
+  ("conf.CreateTypesTable", "_.MapKeys()", RMapKeys);
+  ("conf.FieldsFromStruct", "FieldsFromStruct(_.Type)", RMap);
+  ("conf.FieldsFromStruct", "_", RMap);
+  ("docgen.Context.Markdown", "_.Types", RMap);
+  ("docgen.Context.Markdown", "_.Variables", RMap);
+  ("docgen.Context.use", "conf.FieldsFromStruct(_)", RMap);
   ("docgen.CreateDoc", "Builtins", RMap);
-  ("docgen.CreateDoc", "conf.CreateTypesTable(i)", RMap);
-  ("docgen.fields", "t.Fields", RMap)
+  ("docgen.CreateDoc", "conf.CreateTypesTable(_)", RMap);
+  ("docgen.fields", "_.Fields", RMap)
 ].
 
 Lemma map_ranges_expected : compile_map_ranges = expected_map_ranges.
